@@ -79,8 +79,35 @@ class MapCfg(object):
         return o
 
     # -- values -------------------------------------------------------------
+    def near_sentinel_tok(self, rng, dt):
+        """a VALID value next to the sentinel (validity is `!= sentinel`, never `isclose`)"""
+        import numpy as np
+        import hpgeom as hpg
+        st = self.sentinel
+        if dt in INT_DTYPES:
+            lo, hi = int(np.iinfo(np.dtype(dt)).min), int(np.iinfo(np.dtype(dt)).max)
+            sv = lo if st == 'default' else int(st)
+            v = sv + rng.choice([1, 1, 2, -1])
+            if v < lo or v > hi:
+                v = sv + 1 if sv < hi else sv - 1
+            return str(v)
+        if dt in FLT_DTYPES:
+            if st == 'default':
+                return None       # neighbours of UNSEEN (1.6e30) make every later sum inexact: not generated
+            if st == '0':
+                return rng.choice(['1^30', '-1^30'])
+            if st == '1^1':
+                return '524289^20'                        # 0.5 + 2^-20
+            if st == '-9999':
+                return '-159983^4'                        # -9999 + 2^-4
+        return None
+
     def scalar_tok(self, rng, dtype=None):
         dt = dtype or self.dtype
+        if dtype is None and self.kind == 'plain' and rng.random() < 0.04:
+            t = self.near_sentinel_tok(rng, dt)
+            if t is not None:
+                return t
         if dt in ('i8', 'u8') and rng.random() < 0.06:
             # 64-bit values that float64 cannot hold exactly
             return str(rng.choice([2 ** 53 + 1, 2 ** 62 + 1, 2 ** 53 + 3] + ([-(2 ** 53) - 1] if dt == 'i8' else [2 ** 63 + 5])))
@@ -105,7 +132,12 @@ class MapCfg(object):
             return 'b' + '.'.join(str(rng.choice([0, 0, 1, 2, 128, 255, rng.randint(0, 255)]))
                                   for _ in range(self.nbytes))
         if self.kind == 'rec':
-            return 'r' + ';'.join(self.scalar_tok(rng, f) for f in self.fields)
+            toks = [self.scalar_tok(rng, f) for f in self.fields]
+            if rng.random() < 0.04:
+                t = self.near_sentinel_tok(rng, self.fields[self.primary])
+                if t is not None:
+                    toks[self.primary] = t
+            return 'r' + ';'.join(toks)
         raise ValueError(self.kind)
 
 
